@@ -4,7 +4,7 @@ use crate::db::rel;
 use crate::e5::{count_of, materialize, materialize_with_venv, parse_list, run_cli, seed_shim, Scratch};
 use crate::layouts::Layout;
 use crate::report::{is_thorough, Report};
-use crate::ws::Ws;
+use crate::ws::{FileSpec, Item, Ws};
 use pytest_language_server::FixtureDatabase;
 use serde_json::{json, Value};
 use std::collections::BTreeMap;
@@ -110,6 +110,17 @@ fn unused_from_text(out: &str) -> Vec<(String, String)> {
 pub fn run(rep: &'static Report) {
     let thorough = is_thorough();
     let mut wss: Vec<(Ws, Value)> = extra_workspaces().into_iter().map(|w| (w, json!("hand-written"))).collect();
+    // configured exclude patterns: the server does not index the excluded files, so their usages are
+    // no references and their fixtures no project fixtures; the CLI must report the same workspace
+    for (tag, toml) in [("exclude legacy/**", "[tool.pytest-language-server]\nexclude = [\"legacy/**\"]\n"), ("exclude **/test_old.py", "[tool.pytest-language-server]\nexclude = [\"**/test_old.py\"]\n"), ("nothing excluded", "[tool.pytest-language-server]\nexclude = []\n")] {
+        let ws = Ws { files: vec![
+            FileSpec::new("conftest.py", vec![Item::fixture("fx", &[]), Item::fixture("gx", &[])]),
+            FileSpec::new("tests/test_a.py", vec![Item::test("a", &["fx"])]),
+            FileSpec::new("legacy/conftest.py", vec![Item::fixture("lx", &[])]),
+            FileSpec::new("legacy/test_old.py", vec![Item::test("old", &["gx", "lx"])]),
+        ] };
+        wss.push((ws, json!({"configured": tag, "pyproject": toml})));
+    }
     for l in cli_layouts(if thorough { 1500 } else { 120 }, true) {
         let d = json!(l);
         wss.push((l.to_ws(), d));
@@ -119,7 +130,7 @@ pub fn run(rep: &'static Report) {
     // requests that cannot see it must not count as usages of it
     for l in Layout::enumerate(2, false) {
         let ws = l.to_ws();
-        let ndefs: usize = ws.files.iter().map(|f| f.items.iter().filter(|i| matches!(i, crate::ws::Item::Fixture { name, .. } if name == "fx")).count()).sum();
+        let ndefs: usize = ws.files.iter().map(|f| f.items.iter().filter(|i| matches!(i, Item::Fixture { name, .. } if name == "fx")).count()).sum();
         if ndefs == 1 && !l.distractors[3] && !l.distractors[4] {
             let d = json!({"single_definition": l});
             wss.push((ws, d));
@@ -149,10 +160,15 @@ pub fn run(rep: &'static Report) {
         let r = ws.render();
         let sc = Scratch::new("c20");
         materialize_with_venv(ws, &r, sc.path());
+        if let Some(t) = desc["pyproject"].as_str() {
+            crate::e5::write_file(sc.path(), "pyproject.toml", t);
+        }
         let root = sc.path().to_string_lossy().to_string();
-        // reference: the library scanning the same tree in-process
+        // reference: the library scanning the same tree in-process the way the language server does
+        // at initialize (project configuration loaded from the root, its exclude patterns applied)
         let db = FixtureDatabase::new();
-        db.scan_workspace(sc.path());
+        let cfg = pytest_language_server::config::Config::load(sc.path());
+        db.scan_workspace_with_excludes(sc.path(), &cfg.exclude);
         let mut want_unused: Vec<(String, String)> = Vec::new();
         let mut shadowed_dup = false;
         for e in db.definitions.iter() {
